@@ -419,6 +419,11 @@ fn well_formed(line: &str) -> bool {
     nesting_is_parsable(line) && document::line(line).is_ok()
 }
 
+/// Whether the line holds nothing to assemble: it is blank, or a comment from its start
+pub(crate) fn holds_nothing(line: &str) -> bool {
+    nesting_is_parsable(line) && document::line(line) == Ok(Document::EmptyLine)
+}
+
 fn skip<'a>(
     iter: &mut dyn Iterator<Item = (usize, &'a str)>,
     context: &ParseContext,
